@@ -3,6 +3,7 @@ Model Tetris/TProto.v, checks Tetris/TProtoCheck.v, theorems Properties/C19.v, c
 layout21tetris::conv::proto::{ProtoExporter::export, ProtoLibImporter::import} (harness bin c19)."""
 import copy, json, re
 from vlib import *
+from props.kernelcommon import kernel_tie_leg
 
 TWO63 = 1 << 63
 
@@ -52,9 +53,10 @@ def gen_cross(rng):
 
 NAMES = ["a", "b", "net", "vdd", "VSS", "x1", "clk", "", "q[0]", "n_1"]
 
-def gen_lib(rng, flavor):
-    """flavor: ok | cyclic | rel | bad_outline | big_usize | dup_names | loc_dir | abs_port"""
-    n = rng.choice([0, 1, 1, 2, 2, 3, 3, 4, 4, 5, 6, 7]) if flavor == "ok" else rng.choice([1, 2, 3, 4, 5])
+def gen_lib(rng, flavor, n=None, maxinst=4, maxasg=3):
+    """flavor: ok | cyclic | rel | bad_outline | big_usize | dup_names | loc_dir | abs_port; n / maxinst / maxasg: sizes of the `rt_big` family"""
+    if n is None:
+        n = rng.choice([0, 1, 1, 2, 2, 3, 3, 4, 4, 5, 6, 7]) if flavor == "ok" else rng.choice([1, 2, 3, 4, 5])
     if flavor in ("cyclic",) and n == 0:
         n = 1
     rank = list(range(n))
@@ -71,15 +73,15 @@ def gen_lib(rng, flavor):
             ox, oy = gen_outline(rng, big=rng.random() < 0.05)
             insts = []
             if lower:
-                for j in range(rng.choice([0, 1, 1, 2, 3, 4])):
+                for j in range(rng.choice([0, 1, 1, 2, 3, 4]) if maxinst == 4 else rng.randrange(maxinst + 1)):
                     combo = (combo + 1) % 4
-                    insts.append({"name": rng.choice(["i%d" % j, "i", "u%d" % rng.randrange(3)]),
+                    insts.append({"name": rng.choice(["i%d" % j, "i", "u%d" % rng.randrange(3), "i%d" % j, "i", ""]),
                                   "cell": rng.choice(lower),
                                   "loc": [[0, rng.randrange(-50, 50) if rng.random() < 0.95 else rng.choice([-TWO63, TWO63 - 1])],
-                                          [1, rng.randrange(-50, 50)]],
+                                          [1, rng.randrange(-50, 50) if rng.random() < 0.95 else rng.choice([-TWO63, TWO63 - 1])]],
                                   "rh": bool(combo & 1), "rv": bool(combo & 2)})
-            assigns = [[rng.choice(NAMES)] + gen_cross(rng) for _ in range(rng.choice([0, 0, 1, 2, 3]))]
-            cuts = [gen_cross(rng) for _ in range(rng.choice([0, 0, 1, 2, 3]))]
+            assigns = [[rng.choice(NAMES)] + gen_cross(rng) for _ in range(rng.choice([0, 0, 1, 2, 3]) if maxasg == 3 else rng.randrange(maxasg + 1))]
+            cuts = [gen_cross(rng) for _ in range(rng.choice([0, 0, 1, 2, 3]) if maxasg == 3 else rng.randrange(maxasg + 1))]
             cell["layout"] = {"name": rng.choice([cell["name"], "lay%d" % k]), "metals": gen_usize(rng),
                               "ox": ox, "oy": oy, "insts": insts, "assigns": assigns, "cuts": cuts}
         if rng.random() < 0.3:
@@ -174,8 +176,9 @@ def gen_lib(rng, flavor):
 def gen_pcross(rng):
     return {"track": [rng.randrange(8), rng.randrange(8)], "cross": [rng.randrange(8), rng.randrange(8)]}
 
-def gen_plib(rng):
-    n = rng.choice([1, 2, 2, 3, 3, 4, 5])
+def gen_plib(rng, n=None, maxinst=3):
+    if n is None:
+        n = rng.choice([1, 2, 2, 3, 3, 4, 5])
     cells = []
     for k in range(n):
         ox, oy = gen_outline(rng)
@@ -184,15 +187,19 @@ def gen_plib(rng):
         if rng.random() < 0.9 or k == n - 1:
             insts = []
             if k:
-                for j in range(rng.choice([0, 1, 1, 2, 3])):
-                    insts.append({"name": "i%d" % j, "cell": {"to": ["local", "p%d" % rng.randrange(k)]},
+                for j in range(rng.choice([0, 1, 1, 2, 3]) if maxinst == 3 else rng.randrange(maxinst + 1)):
+                    insts.append({"name": rng.choice(["i%d" % j, "i%d" % j, "i", ""]), "cell": {"to": ["local", "p%d" % rng.randrange(k)]},
                                   "loc": {"place": ["abs", rng.randrange(-20, 20), rng.randrange(-20, 20)]},
                                   "rh": rng.random() < 0.5, "rv": rng.random() < 0.5})
-            c["layout"] = {"name": c["name"], "outline": out, "insts": insts,
+            c["layout"] = {"name": rng.choice([c["name"], c["name"], "lay%d" % k, ""]), "outline": out, "insts": insts,
                            "assigns": [{"net": rng.choice(NAMES), "at": gen_pcross(rng)} for _ in range(rng.choice([0, 1, 2]))],
                            "cuts": [gen_pcross(rng) for _ in range(rng.choice([0, 1, 2]))]}
         if rng.random() < 0.35:
-            c["abs"] = {"name": c["name"], "outline": copy.deepcopy(out), "ports": []}
+            aout = copy.deepcopy(out)
+            if rng.random() < 0.5:            # an abstract with an outline / metal count of its own
+                ax, ay = gen_outline(rng)
+                aout = {"x": [v for _, v in ax], "y": [v for _, v in ay], "metals": rng.randrange(6)}
+            c["abs"] = {"name": rng.choice([c["name"], c["name"], "abs%d" % k]), "outline": aout, "ports": []}
         cells.append(c)
     return {"domain": rng.choice(["d", "plib", ""]), "cells": cells}
 
@@ -209,11 +216,17 @@ def mutation_sites(p):
                     sites.append(("inst_" + m, k, j))
                 if k + 1 < len(names):
                     sites.append(("inst_forward", k, j))
+                # generator audit 2026-10-02: TWO defects at once on one instance; a reference that almost names a defined cell
+                for m in ("cell_and_loc_none", "undefined_and_rel", "to_none_and_place_none"):
+                    sites.append(("inst2_" + m, k, j))
+                if j == 0:
+                    for m in ("case", "space", "prefix", "empty"):
+                        sites.append(("instnear_" + m, k, j))
             for j, _ in enumerate(l["assigns"]):
-                for m in ("at_none", "at_track_none", "at_cross_none"):
+                for m in ("at_none", "at_track_none", "at_cross_none", "at_both_none"):
                     sites.append(("assign_" + m, k, j))
             for j, _ in enumerate(l["cuts"]):
-                for m in ("track_none", "cross_none"):
+                for m in ("track_none", "cross_none", "both_none"):
                     sites.append(("cut_" + m, k, j))
         if c["abs"]:
             sites.append(("abs_outline_none", k))
@@ -240,6 +253,21 @@ def apply_site(rng, p, site):
         l["outline"] = None
     elif kind == "abs_outline_none":
         c["abs"]["outline"] = None
+    elif kind.startswith("inst2_"):
+        i = l["insts"][site[2]]
+        m = kind[6:]
+        if m == "cell_and_loc_none": i["cell"] = None; i["loc"] = None
+        elif m == "undefined_and_rel": i["cell"] = {"to": ["local", "nope"]}; i["loc"] = {"place": ["rel"]}
+        else: i["cell"] = {"to": None}; i["loc"] = {"place": None}
+    elif kind.startswith("instnear_"):
+        i = l["insts"][site[2]]
+        m = kind[9:]
+        nm = i["cell"]["to"][1]
+        defined = {cc["name"] for cc in q["cells"]}
+        new = {"case": nm.upper(), "space": nm + " ", "prefix": nm[:-1], "empty": ""}[m]
+        if new in defined:
+            new = "nope"
+        i["cell"] = {"to": ["local", new]}
     elif kind.startswith("inst_"):
         i = l["insts"][site[2]]
         m = kind[5:]
@@ -257,10 +285,12 @@ def apply_site(rng, p, site):
         m = kind[7:]
         if m == "at_none": a["at"] = None
         elif m == "at_track_none": a["at"]["track"] = None
+        elif m == "at_both_none": a["at"]["track"] = None; a["at"]["cross"] = None
         else: a["at"]["cross"] = None
     elif kind.startswith("cut_"):
         x = l["cuts"][site[2]]
         if kind == "cut_track_none": x["track"] = None
+        elif kind == "cut_both_none": x["track"] = None; x["cross"] = None
         else: x["cross"] = None
     elif kind == "neg_metals":
         l["outline"]["metals"] = -1 - rng.randrange(3)
@@ -427,7 +457,43 @@ def gen_cases(chk):
             add("imp_" + s[0], apply_site(rng, base, s))
         for s in other_sites(base):
             add("imp_other_" + s[0], apply_site(rng, base, s))
+    for c in audit_cases(rng, quick):
+        add(c.pop("kind"), c)
     return cases, dist
+
+def audit_cases(rng, quick):
+    """Families added by the generator audit of 2026-10-02 (absent from the quick tier before): big libraries / messages (30-40 cells, up
+    to 12 instances and 10 assignments / cuts per cell); exact duplicates of one instance (same name, target, place, reflection) and
+    all four reflections of one target at one place; a 60-cell chain with only its top listed; the empty message; in-range extremes of
+    every integer field of a MESSAGE (the rt direction reaches them only through export)."""
+    out = []
+    for _ in range(3 if quick else 30):
+        c = gen_lib(rng, "ok", n=rng.randrange(30, 41), maxinst=12, maxasg=10); c["kind"] = "rt_big"; out.append(c)
+        base = gen_plib(rng, n=rng.randrange(30, 41), maxinst=12)
+        out.append({"op": "imp", "plib": base, "site": [], "kind": "imp_big"})
+    mk = lambda name, insts: {"name": name, "abs": None, "layout": {"name": name, "metals": 2, "ox": [[0, 9], [0, 4]], "oy": [[1, 3], [1, 8]],
+                                                                     "insts": insts, "assigns": [["n", 0, 1, 1, 2], ["n", 0, 1, 1, 2]], "cuts": [[1, 0, 0, 0], [1, 0, 0, 0]]}}
+    I = lambda nm, cell, x, y, rh, rv: {"name": nm, "cell": cell, "loc": [[0, x], [1, y]], "rh": rh, "rv": rv}
+    out.append({"op": "rt", "name": "dups", "flavor": "ok", "kind": "rt_dup_insts", "listing": [1, 0],
+                "heap": [mk("leaf", []), mk("top", [I("i", 0, 3, -4, True, False)] * 3 + [I("i", 0, 3, -4, rh, rv) for rh in (False, True) for rv in (False, True)])]})
+    out.append({"op": "rt", "name": "dups", "flavor": "ok", "kind": "rt_dup_insts", "listing": [2],
+                "heap": [mk("a", []), mk("b", [I("", 0, 0, 0, False, True)] * 2), mk("top", [I("x", 1, 1, 1, True, True), I("x", 0, 1, 1, True, True), I("x", 1, 1, 1, True, True)])]})
+    n = 60
+    out.append({"op": "rt", "name": "chain", "flavor": "ok", "kind": "rt_deep_chain", "listing": [0],
+                "heap": [mk("c%d" % k, [I("d", k + 1, k, -k, k % 2 == 0, k % 3 == 0)] if k + 1 < n else []) for k in range(n)]})
+    out.append({"op": "rt", "name": "chain", "flavor": "ok", "kind": "rt_deep_chain", "listing": list(range(n)),
+                "heap": [mk("c%d" % k, [I("d", k + 1, k, -k, k % 2 == 0, k % 3 == 0)] if k + 1 < n else []) for k in range(n)]})
+    out.append({"op": "imp", "plib": {"domain": "empty", "cells": []}, "site": [], "kind": "imp_empty"})
+    out.append({"op": "imp", "plib": {"domain": "", "cells": []}, "site": [], "kind": "imp_empty"})
+    I64 = TWO63 - 1
+    for big in (I64, I64 - 1, 1 << 32, (1 << 31) - 1, 1 << 31):
+        lay = {"name": "e", "outline": {"x": [big, big, 0], "y": [0, big, big], "metals": big},
+               "insts": [{"name": "i", "cell": {"to": ["local", "leaf"]}, "loc": {"place": ["abs", x, y]}, "rh": False, "rv": True}
+                         for x, y in ((big, -big - 1), (-big - 1, big), (-big, -big))],
+               "assigns": [{"net": "n", "at": {"track": [big, 0], "cross": [0, big]}}], "cuts": [{"track": [0, big], "cross": [big, big]}]}
+        leaf = {"name": "leaf", "abs": {"name": "leaf", "outline": {"x": [big], "y": [big], "metals": 0}, "ports": []}, "layout": None}
+        out.append({"op": "imp", "plib": {"domain": "ext", "cells": [leaf, {"name": "e", "abs": None, "layout": lay}]}, "site": [], "kind": "imp_extremes"})
+    return out
 
 def coq_item(c, r):
     """-> (coq expression | None, forced_code | None, extras_ok)"""
@@ -495,6 +561,9 @@ def classify(c):
 
 def run(chk, replay=None):
     chk.proof_leg(["Tetris/TProtoCheck.vo"], "Properties/C19.v", ["Tetris/TProto_proofs.v"], "Properties.C19")
+    kernel_tie_leg(chk, "tetris_proto")       # export_outline / import_outline / Outline::from_prim_pitches generated from the source = the model (Properties/KernelsTetrisProto.v)
+    kernel_tie_leg(chk, "order_generic")      # the cell orderer of the exporter: DepOrderer::push / order generated from the source = order_pending (Properties/KernelsOrder.v)
+    kernel_tie_leg(chk, "order_tetris")       # CellOrder::process / fail generated from the source = lib_deps of the model (Properties/KernelsOrderTetris.v)
     chk.assumptions += [
         "64-bit target: isize = i64, so i64::try_from(isize) / isize::try_from(i64) never fail; usize -> i64 fails from 2^63 on (modelled)",
         "Ptr<Cell> identity is a heap index; RwLock poisoning / lock failures are not modelled",
